@@ -20,10 +20,10 @@ func main() {
 	w.Compact, w.Delete, w.Reopen, w.Txn = 6, 25, 1, 1
 	dbh.Main(dbh.MainCfg{
 		Property:   "C03",
-		Rule:       "random DB programs with up to 12 simultaneously live snapshots and 4 pinned iterators at random positions between overwrites and deletes of the same keys, interleaved with forced flushes and CompactRange; each snapshot keeps a frozen copy of the Go map and is compared (all pool keys + full scan) at every snapshot read, at checkpoints and before release; pinned iterators are stepped between compactions and compared with their creation-time list; non-trivial = a table compaction ran while >=1 snapshot was live; plus a directed family (dbh.RunDeep): three or more levels, waves of Deletes over values stored two or more levels further down, a snapshot taken after them, a few more writes, DB.CompactRange under ONE transient table write/sync/create fault (retried builder), healing, settling: the snapshot and the live view must show exactly their oracles (all keys + full scan), again after a final fault-free range compaction",
+		Rule:       "random DB programs with up to 12 simultaneously live snapshots and 4 pinned iterators at random positions between overwrites and deletes of the same keys, interleaved with forced flushes and CompactRange; each snapshot keeps a frozen copy of the Go map and is compared (all pool keys + full scan) at every snapshot read, at checkpoints and before release; pinned iterators are stepped between compactions and compared with their creation-time list; every fifth program runs under the non-injective ASCII-case-insensitive comparer (several spellings per user key; oracle, frozen copies and iterator lists keyed by equivalence class and showing the spelling of the newest visible Put; bloom filter off); non-trivial = a table compaction ran while >=1 snapshot was live; plus deep-tree scenarios (3+ levels, Delete waves over values two or more levels down, one compaction retried under a single transient table fault, with a snapshot taken after the deletions: every deleted key stays not-found, the snapshot stays frozen)",
 		Header:     "From GL Require Import Corr.C03Run.",
 		QuickProgs: 560, QuickOps: 320, ThorProgs: 2000, ThorOps: 1200,
-		Weights: w, CheckEvery: 8,
+		Weights: w, CheckEvery: 8, ClassCmp: true,
 		KPrefixes: []string{"KCompact"}, KCapQuick: 200, KCapThor: 900, KPerRun: 6,
 		NonTrivial: func(s map[string]int) bool { return s["table_compactions"] >= 1 && s["op_snap"] >= 1 },
 		Directed: func(r *vlib.RNG, i int) *dbh.Program {
